@@ -49,7 +49,7 @@ pub fn install_panic_hook() {
     }));
 }
 
-fn render_result<'src, I, E>(o: Option<Val>, errs: Vec<E>, st: &Insp, out: &mut String)
+fn render_result<'src, I, E>(o: Option<Val>, errs: Vec<E>, st: &Insp, ir_ok: bool, out: &mut String)
 where
     I: HInput<'src>,
     E: HErr<'src, I>,
@@ -76,6 +76,7 @@ where
     } else {
         out.push_str(" ; insp=-");
     }
+    out.push_str(if ir_ok { " ; ir=ok" } else { " ; ir=err" });
 }
 
 fn build_case<'src, I: HInput<'src>, E: HErr<'src, I>>(case: &Case) -> BP<'src, I, E> {
@@ -99,12 +100,20 @@ fn run_one<'src, I: HInput<'src>, E: HErr<'src, I>>(
         let mut s = String::new();
         match mode {
             ModeK::Parse => {
-                let (o, errs) = p.parse_with_state(input, &mut st).into_output_errors();
-                render_result::<I, E>(o, errs, &st, &mut s);
+                let res = p.parse_with_state(input, &mut st);
+                let ir_ok = res.clone().into_result().is_ok();
+                let (ho, he) = (res.has_output(), res.has_errors());
+                let (o, errs) = res.into_output_errors();
+                assert!(ho == o.is_some() && he == !errs.is_empty(), "harness: ParseResult accessors inconsistent");
+                render_result::<I, E>(o, errs, &st, ir_ok, &mut s);
             }
             ModeK::Check => {
-                let (o, errs) = p.check_with_state(input, &mut st).into_output_errors();
-                render_result::<I, E>(o.map(|_| Val::Unit), errs, &st, &mut s);
+                let res = p.check_with_state(input, &mut st);
+                let ir_ok = res.clone().into_result().is_ok();
+                let (ho, he) = (res.has_output(), res.has_errors());
+                let (o, errs) = res.into_output_errors();
+                assert!(ho == o.is_some() && he == !errs.is_empty(), "harness: ParseResult accessors inconsistent");
+                render_result::<I, E>(o.map(|_| Val::Unit), errs, &st, ir_ok, &mut s);
             }
         }
         s
